@@ -260,6 +260,16 @@ static RMatL spd_matrix(Rng& r, long n, ld kappa, bool sparse)
     return B;
 }
 
+// block-diagonal SPD matrix with the same block split as a block-diag world (so that the pencil has an
+// invariant subspace aligned with the leading coordinates and B-inner-product iterations can break down)
+static RMatL spd_blockdiag(Rng& r, long n, long nb, ld kappa, bool sparse)
+{
+    RMatL B = RMatL::Zero(n, n);
+    B.topLeftCorner(nb, nb) = spd_matrix(r, nb, kappa, sparse);
+    B.bottomRightCorner(n - nb, n - nb) = spd_matrix(r, n - nb, kappa, sparse);
+    return B;
+}
+
 static MatL widen(const RMatL& M) { return M.cast<cld>(); }
 
 void gen_matrices(const WorldSpec& w, MatL& A, MatL& B)
@@ -320,13 +330,21 @@ void gen_matrices(const WorldSpec& w, MatL& A, MatL& B)
     if (w.family == F_GBUCK)
     {
         // K SPD (A), K_G symmetric (B)
-        A = widen(spd_matrix(r, n, (ld) w.kappaB, (w.variant & 1) != 0)) * cld(scale);
+        if (w.mclass == M_BLOCKDIAG)
+            A = widen(spd_blockdiag(r, n, std::min<long>(std::max<long>(w.nblock, 1), n - 1), (ld) w.kappaB, (w.variant & 1) != 0)) * cld(scale);
+        else
+            A = widen(spd_matrix(r, n, (ld) w.kappaB, (w.variant & 1) != 0)) * cld(scale);
         B = widen(sym_matrix(r, w, n, w.mclass));
         return;
     }
     A = widen(sym_matrix(r, w, n, w.mclass)) * cld(scale);
     if (family_has_B(w.family))
-        B = widen(spd_matrix(r, n, (ld) w.kappaB, (w.variant & 2) != 0));
+    {
+        if (w.mclass == M_BLOCKDIAG)
+            B = widen(spd_blockdiag(r, n, std::min<long>(std::max<long>(w.nblock, 1), n - 1), (ld) w.kappaB, (w.variant & 2) != 0));
+        else
+            B = widen(spd_matrix(r, n, (ld) w.kappaB, (w.variant & 2) != 0));
+    }
 }
 
 void gen_svd_matrix(const WorldSpec& w, MatL& A)
